@@ -218,3 +218,30 @@ func regionsReuse(c *Ctx) {
 }
 
 var _ = rand.Int
+
+// roundLensUnit: every call of the list on inputs of every round length (see
+// roundLengths) up to 2^17 (thorough 2^21), compared with its oracle.
+func roundLensUnit(calls []reuseCall) Unit {
+	return Unit{Name: "roundlens", QShards: 4, TShards: 8, Run: func(c *Ctx) {
+		lens := roundLengths(c.N(1<<17, 1<<21))
+		idx := int64(0)
+		for _, rc := range calls {
+			for _, n := range lens {
+				c.Case(idx, func(k *K) {
+					r := k.Rand()
+					buf := seqOrRuns(r, []byte(rc.alpha), n)
+					k.Input("call", rc.name)
+					k.Input("input_bytes", n)
+					if got, want := rc.call(buf), rc.want(buf); got != want {
+						d := firstDiff([]byte(got), []byte(want))
+						k.Failf("round-length", "%s on an input of %d bytes: the result (%d bytes) differs from the reference (%d bytes) at byte %d: %.60q vs %.60q", rc.name, n, len(got), len(want), d, got[min(d, len(got)):], want[min(d, len(want)):])
+						return
+					}
+					k.Count("round_length_calls", 1)
+					k.Nontrivial([]byte(rc.name), []byte(fmt.Sprint(n)))
+				})
+				idx++
+			}
+		}
+	}}
+}
